@@ -126,3 +126,22 @@ func Errors() *U[error] {
 func Chans() *U[chan int] {
 	return &U[chan int]{Name: "chan int", Keys: [][]chan int{{make(chan int)}, {make(chan int, 1)}, {make(chan int)}}}
 }
+
+// Liar is a comparable type carrying every conventional method, all of them at odds with ==: Equal
+// says yes to everything, Compare/Less/Cmp see no difference, IsZero is true for a non-zero value, and
+// String/Error/GoString render all values alike. Code that is specified through == (and through
+// fmt.Sprint only where it prints) must not consult them.
+type Liar struct{ N int }
+
+func (a Liar) Equal(b Liar) bool  { return true }
+func (a Liar) Compare(b Liar) int { return 0 }
+func (a Liar) Cmp(b Liar) int     { return 0 }
+func (a Liar) Less(b Liar) bool   { return false }
+func (a Liar) IsZero() bool       { return a.N == 1 }
+func (a Liar) String() string     { return "liar" }
+func (a Liar) GoString() string   { return "liar" }
+func (a Liar) Hash() uint64       { return 7 }
+
+func Liars() *U[Liar] {
+	return &U[Liar]{Name: "struct whose Equal/Compare/Less/IsZero/String methods disagree with ==", Keys: [][]Liar{{{0}}, {{1}}, {{2}}}}
+}
